@@ -9,7 +9,14 @@ BENIGN = ["Sender", "Subject", "toto@toto.com", "INBOX", "Folder.Sub", "x y", "l
           "2019-02-26", "hello", "*", "a@b.example", "X-Spam-Flag"]
 SOFT = ["a,b", "a, b", "[x]", "]", "[", "a b,c", "été", "€uro", "ünï", " lead", "trail ",
         "a;b", "{x}", "#c", "(p)", "a:b", ":tagish", "100%", "тест", "日本", "two\r\nlines",
-        "l1\nl2\n", "a\n.\nb", ".\nfirst line is a dot", "dot last\r\n.", "..", "."]
+        "l1\nl2\n", "a\n.\nb", ".\nfirst line is a dot", "dot last\r\n.", "..", ".",
+        # values that look like Sieve syntax without containing a quote or a backslash
+        "text: I am away", "text:", "text:\nbye\n.\n; discard", "text:\n.\n", "[a", "a]",
+        "if true { discard; }", "/* c */", "# c", "1K", "True", "any of",
+        # characters str.splitlines()/strip() treat as line breaks or blanks, zero-width and
+        # byte-order marks, NBSP, Kelvin sign / dotless i / sharp s (case mapping pitfalls)
+        "a\x0bb", "f\x0cf", "x\x1cy", "n\x85l", "l\u2028s", "p\u2029s", "\ufeffbom first",
+        "zero\u200bwidth", "nb\u00a0sp", "\u212aelvin", "d\u0131tless", "stra\u00dfe", "\u0130stanbul"]
 LONG_SIZES = [1022, 1023, 1024, 1025, 1026, 2048, 4096, 5000]
 HOSTILE = ['a"b', 'x"', 'a\\b', 'x\\', '\\"', 'a"; discard; #', '"]; stop; #'[1:],
            'a\nb', 'a\r\nb', 'a" , "b', 'q"] ["z', "a'b", ""]
@@ -280,7 +287,9 @@ NAMES_RICH = ["rule1", "Rule é", "filter #2", "x: y", "名前", "a-b_c.d", "UPP
               "n(1)", "50%", "tab\tname"[:3]]
 DESCS = [None, "", "a description", "déscription ünï", "with # hash", "k: v; w",
          "#starts with a hash", "ends with a hash #", "##", "\"quoted\" and 'single'",
-         "if true { stop; }", "Filter: not a marker", "x" * 200]
+         "if true { stop; }", "Filter: not a marker", "x" * 200,
+         "vt\x0bff\x0cfs\x1cnel\x85ls\u2028ps\u2029 inside", "\ufeffbom first", "nb\u00a0sp\u200bzw",
+         "tab\tinside"]
 
 
 def _map(x, f):
